@@ -101,7 +101,7 @@ static void run_script(const script_t& s, Ptr p, Handler, std::function<void(int
   for (const op_t& o : s.ops) {
     if (o.kind == 'i') { Handler::insert(p, o.k, o.v); }
     else if (o.kind == 'h') { evs("sb"); g_world->async((int)o.d, Handler(), p, o.k, o.v, (int)o.d2, o.k2, o.v2); evs("se"); }
-    else if (o.kind == 'b') { evs("bb"); g_world->barrier(); evs("be"); g_trace = false; after_barrier(phase++); g_trace = true; }
+    else if (o.kind == 'b') { evs("bb"); g_world->barrier(); evs("be"); after_barrier(phase++); }
   }
 }
 
@@ -139,8 +139,8 @@ extern "C" int sim_main(int argc, char** argv) {
     CS cs(world);
     auto pcs = cs.get_ygm_ptr();
     for (uint64_t k : s.universe) hc::out("own " + u(k) + " " + std::to_string(cs.is_mine(HK(k)) ? world.rank() : -1));
+    g_trace = true;   // before the barrier: a rank still inside it already executes handlers of faster ranks
     world.barrier();
-    g_trace = true;
     run_script(s, pcs, cs_handler(), [&](int ph) { hc::out("snap " + std::to_string(ph) + " " + u(cs.count_all())); });
     g_trace = false;
     world.barrier();
@@ -156,13 +156,14 @@ extern "C" int sim_main(int argc, char** argv) {
   } else if (mode == "rmap") {
     ygm::container::map<uint64_t, HV> m(world);
     for (uint64_t k : s.universe) hc::out("own " + u(k) + " " + std::to_string(m.owner(k)));
-    auto dump = [&](const std::string& tag) { std::ostringstream o; o << tag; m.for_all([&o](const uint64_t& k, HV& v) { o << " " << k << ":" << v.val << ":" << v.key; }); hc::out(o.str()); };
+    // cf_barrier: no rank starts the next phase before every rank has listed its contents
+    auto dump = [&](const std::string& tag) { std::ostringstream o; o << tag; m.for_all([&o](const uint64_t& k, HV& v) { o << " " << k << ":" << v.val << ":" << v.key; }); hc::out(o.str()); world.cf_barrier(); };
     {
       auto ra = ygm::container::detail::make_reducing_adapter(m, Red());
       using RA = decltype(ra);
       auto pra = world.make_ygm_ptr(ra);
-      world.barrier();
       g_trace = true;
+      world.barrier();
       run_script(s, pra, ra_handler<RA>(), [&](int ph) { dump("snap " + std::to_string(ph)); });
       evs("bb");
     }   // ~reducing_adapter: barrier
@@ -172,13 +173,13 @@ extern "C" int sim_main(int argc, char** argv) {
   } else if (mode == "rarr") {
     ygm::container::array<HV> a(world, (size_t)s.len);
     for (uint64_t k : s.universe) hc::out("own " + u(k) + " " + std::to_string(a.owner(k)));
-    auto dump = [&](const std::string& tag) { std::ostringstream o; o << tag; a.for_all([&o](const size_t k, HV& v) { if (!(v == HV())) o << " " << k << ":" << v.val << ":" << v.key; }); hc::out(o.str()); };
+    auto dump = [&](const std::string& tag) { std::ostringstream o; o << tag; a.for_all([&o](const size_t k, HV& v) { if (!(v == HV())) o << " " << k << ":" << v.val << ":" << v.key; }); hc::out(o.str()); world.cf_barrier(); };
     {
       auto ra = ygm::container::detail::make_reducing_adapter(a, Red());
       using RA = decltype(ra);
       auto pra = world.make_ygm_ptr(ra);
-      world.barrier();
       g_trace = true;
+      world.barrier();
       run_script(s, pra, ra_handler<RA>(), [&](int ph) { dump("snap " + std::to_string(ph)); });
       evs("bb");
     }
